@@ -144,6 +144,12 @@ const SPECS: &[&str] = &[
     "b:heads/c",
     "refs/heads/ab*ba:refs/remotes/w/x*y",
     "1111111111111111111111111111111111111111:refs/heads/pinned",
+    // abbreviated destinations that merely start with the words heads / tags / remotes
+    "a:tags-old",
+    "a:headstrong",
+    "b:remotes2/x",
+    "a:tags",
+    "a:heads",
 ];
 const NAMES: &[&str] = &["HEAD", "refs/heads/a", "refs/heads/aa", "refs/heads/aba", "refs/heads/ab", "refs/heads/b", "refs/heads/abba", "refs/tags/t"];
 
@@ -228,7 +234,7 @@ struct GitCase {
 
 pub fn run(run: &'static Run) {
     run.rule(format!(
-        "specs: all lists of <= {} of {} fetch refspecs (globs incl. prefix/suffix overlapping short names: a*a, ab*ba, h*s, *a; force; negative full-name; partial names; object id with/without destination; partial destinations) \
+        "specs: all lists of <= {} of {} fetch refspecs (globs incl. prefix/suffix overlapping short names: a*a, ab*ba, h*s, *a; force; negative full-name; partial names; object id with/without destination; partial destinations incl. ones that merely start with heads/tags/remotes: tags-old, headstrong, remotes2/x, tags, heads) \
          x remote refs: all subsets (<= {} names) of {:?}; every single spec (thorough: every unordered pair) is also fetched by real git from a generated remote holding all names, and git's resulting refs are compared with the transcription. \
          non-trivial = at least one mapping results (or an overlapping glob had to be refused)",
         run.pick(2, 3),
